@@ -113,7 +113,9 @@ func (kf *kindFlow) refine(cond ssa.Value, cur KindSet) (t, f KindSet) {
 		if call == nil || k == nil || k.Value == nil || k.Value.Kind() != constant.Int {
 			return
 		}
-		if core.CalleeKey(&call.Call) != "reflect.Value.Kind" || !kf.subject(call.Call.Args[0]) {
+		isValueKind := core.CalleeKey(&call.Call) == "reflect.Value.Kind" && kf.subject(call.Call.Args[0])
+		isTypeKind := call.Call.IsInvoke() && call.Call.Method.Name() == "Kind" && kf.subject(call.Call.Value)
+		if !isValueKind && !isTypeKind {
 			return
 		}
 		kv, _ := constant.Int64Val(k.Value)
